@@ -326,6 +326,15 @@ def run_isolated(spec, rec, Integration, PhiManip, Numerics, tap):
         if asfunc:
             k0 = PNAMES[nd][0][kmin]
             kwf[k0] = (lambda t, v=kw[k0]: v)     # function of time returning the constant
+        # every other case: all the other populations grow in time (the smallest, constant one keeps setting the time step, so
+        # a subset run alone still takes the identical steps); each population must follow its own size function
+        timevar = ci % 2 == 1
+        if timevar:
+            for i in range(nd):
+                if i != kmin:
+                    nm = PNAMES[nd][0][i]
+                    kwf[nm] = (lambda t, v=kw[nm], a=float(rng.uniform(0.3, 1.5)), T=T: v * (1 + a * t / T))
+            tags = dict(tags, timevar=True)
         log = RunLog(rec, site, tags)
         tap.subs[:] = [log]
         tap.grids = None
@@ -348,12 +357,12 @@ def run_isolated(spec, rec, Integration, PhiManip, Numerics, tap):
                 # primary form: the public lower-dimensional integrator takes the identical dt sequence
                 fk = getattr(Integration, INTEG[len(S)])
                 names = PNAMES[len(S)][0]
-                kws = {names[i]: kw[PNAMES[nd][0][s]] for i, s in enumerate(S)}
+                kws = {names[i]: kwf[PNAMES[nd][0][s]] for i, s in enumerate(S)}
                 kws["theta0"] = kw["theta0"]
                 ok, alone = rec.noraise("driver-returns", lambda: fk(sub0.copy(), xx, T, **kws), site="Integration." + INTEG[len(S)], tags=tagsS)
                 if ok:
                     rec.close("isolated-subset", relerr(interior(got), interior(np.asarray(alone))), TOL, site=site, tags=tagsS)
-            elif dts and tap.attached:
+            elif dts and tap.attached and not timevar:
                 # secondary form: replay the recorded dt sequence through the real lower-dimensional kernels
                 try:
                     import dadi.integration_c as C
